@@ -200,6 +200,9 @@ func c08(x *mc.Cell, pull bool, limit uint64, k, depth, maxDev int) {
 								viol("update-without-reply", d.String())
 							} else if reply.IsPaused() == shouldResume || !reply.Accepted() {
 								viol("reply-pause-flag", fmt.Sprintf("reply paused=%v accepted=%v, progress %d new limit %d", reply.IsPaused(), reply.Accepted(), t, nl))
+								// C04: the accepted reply carries exactly the pause decision that follows from the validator's result
+								x.Violate("C04", fmt.Sprintf("revalidation-reply-pause-decision;paused=%v;accepted=%v;newlimit-vs-progress=%s;pull=%v", reply.IsPaused(), reply.Accepted(), cmp3(nl, t), pull),
+									fmt.Sprintf("pull=%v sizes=%v ops=%v: channel paused at its limit (progress %d); the validator accepts with limit %d; the reply says paused=%v accepted=%v", pull, sizes, log, t, nl, reply.IsPaused(), reply.Accepted()), rep())
 							}
 						}
 					case ch == 6: // rejecting update
@@ -287,6 +290,8 @@ func init() {
 		for L := uint64(0); L <= 6; L++ {
 			pull, L := pull, L
 			mc.Register("C08", fmt.Sprintf("limits/pull=%v/L=%d", pull, L), "quick", func(x *mc.Cell) { c08(x, pull, L, 2, 5, 2) })
+			mc.Register("C04", fmt.Sprintf("l2-revalidation-at-limit/pull=%v/L=%d", pull, L), "quick", func(x *mc.Cell) { c08(x, pull, L, 2, 5, 2) })
+			mc.Register("C04", fmt.Sprintf("l2-revalidation-at-limit/pull=%v/L=%d", pull, L), "thorough", func(x *mc.Cell) { c08(x, pull, L, 3, 6, 3) })
 			mc.Register("C08", fmt.Sprintf("limits/pull=%v/L=%d", pull, L), "thorough", func(x *mc.Cell) { c08(x, pull, L, 3, 6, 3) })
 		}
 	}
